@@ -25,6 +25,8 @@ ColsRange(t, x, z) ==
     LET last == Min(z, Width(t) - 1)
     IN [i \in 1..Max(0, last - x + 1) |-> t.cols[x + i]]
 VMat(m) == [i \in 1..Len(m) |-> VSeq(m[i])]
+RECURSIVE Flatten(_)
+Flatten(m) == IF m = <<>> THEN <<>> ELSE Head(m) \o Flatten(Tail(m))
 
 Expected(ev) ==
     LET t == ev.pre a == ev.a
@@ -34,6 +36,10 @@ Expected(ev) ==
          [] ev.method = "get_cells"  -> CellsArea(t, a.x, a.y, a.z, a.t)
          [] ev.method = "get_rows"   -> RowsRange(t, a.y, a.t)
          [] ev.method = "get_columns" -> ColsRange(t, a.x, a.z)
+         (* keyword forms of the same reads: one flat list; only the columns of one style *)
+         [] ev.method = "get_values_flat" -> Flatten(VMat(Area(t, a.x, a.y, a.z, a.t)))
+         [] ev.method = "get_cells_flat"  -> Flatten(CellsArea(t, a.x, a.y, a.z, a.t))
+         [] ev.method = "get_columns_style" -> SelectSeq(ColsRange(t, a.x, a.z), LAMBDA c : c = a.s)
          [] ev.method = "get_row"    -> RowAt(t, a.y)
          [] ev.method = "get_column_values" -> VSeq(ColumnValues(t, a.x))
          [] ev.method = "row_get_values" -> VSeq(RowCellsOf(t, a.y, a.x, a.z))
